@@ -5,7 +5,7 @@
 (*                                                                          *)
 (* An option file is a sequence of statements.  [BO] "Meson provides for   *)
 (* this by having an option definition file": it contains option()         *)
-(* declarations and nothing else - failing/5, 14, 55, 94, 142, 144 and the *)
+(* declarations and nothing else - failing/14, 55, 94, 142, 144 and the    *)
 (* pinned message texts "Option file may only contain option definitions", *)
 (* "Only calls to option() are allowed in option files".                   *)
 (*                                                                          *)
